@@ -24,6 +24,7 @@ type PropConfig struct {
 	Notes    string   `json:"notes"`
 	Structural []string `json:"structural"`
 	MathLemmas []string `json:"math_lemmas"`
+	EntryPoints []string `json:"entry_points"`
 }
 
 type Target struct {
@@ -201,7 +202,7 @@ func cmdCheck(args []string) int {
 		}
 	}
 	if len(pc.Structural) > 0 && *only == "" {
-		results = append(results, &TargetResult{Target: "structural:" + strings.Join(pc.Structural, ","), Obls: structuralObligations(p, *verif, pc.Structural), Exec: NewExec(p)})
+		results = append(results, &TargetResult{Target: "structural:" + strings.Join(pc.Structural, ","), Obls: structuralObligations(p, *verif, pc.Structural, pc.EntryPoints), Exec: NewExec(p)})
 	}
 	// arithmetic lemmas over the mathematical integers (hand-written SMT-LIB, negated claim, expected unsat)
 	if len(pc.MathLemmas) > 0 && *only == "" {
@@ -636,6 +637,9 @@ func report(p *Loaded, verif, prop, tier string, seed int, pc *PropConfig, resul
 			failures = append(failures, n)
 			if kf := isKnown(n); kf != nil {
 				knownLines = append(knownLines, fmt.Sprintf("KNOWN-FINDING: property=%s %s (%s)", prop, n, kf.What))
+				if os2[0].Class != "B" {
+					total-- // a recorded finding is reported apart; the remaining obligations must all be discharged
+				}
 			} else {
 				var owner *TargetResult
 				for _, r := range results {
